@@ -88,6 +88,18 @@ type p03 struct {
 	dir    string
 	shape  map[string]bool
 	blocks []string
+	// the votes that decide a rule change, held back: they are handed to the executor together with the next
+	// block of IBTPs, without waiting for their commit (consensus runs ahead of execution)
+	deferred []pb.Transaction
+}
+
+// flush executes a held-back block of votes on its own.
+func (p *p03) flush() {
+	if p.deferred != nil {
+		d := p.deferred
+		p.deferred = nil
+		p.world.Exec(d...)
+	}
 }
 
 func (p *p03) ruleVerdict(chain string, proof []byte) bool {
@@ -319,6 +331,7 @@ func forgedHubPair() (string, string) {
 }
 
 func (p *p03) govBlock(txs ...pb.Transaction) ([]*pb.Receipt, error) {
+	p.flush()
 	res, err := p.world.Exec(txs...)
 	if err != nil {
 		return nil, err
@@ -367,7 +380,14 @@ func (p *p03) changeRule(kind string, approve bool) {
 		p.w.Count("rule_changes_rejected", 1)
 		return
 	}
-	if _, err := p.world.VoteAll(pid, p.world.Votes, "approve"); err != nil {
+	if p.rng.Intn(2) == 0 {
+		// the deciding votes are not executed now: they go to the executor back to back with the next block. Proofs
+		// are checked against the state after the previous block, so that block is judged under the new rule
+		for i := 0; i < p.world.Votes; i++ {
+			p.deferred = append(p.deferred, p.world.BVM(harness.AdminKey(i), harness.AddrGov, "Vote", pb.String(pid), pb.String("approve"), pb.String("reason")))
+		}
+		p.shape["rule-change-decided-in-the-block-before-the-ibtps"] = true
+	} else if _, err := p.world.VoteAll(pid, p.world.Votes, "approve"); err != nil {
 		return
 	}
 	p.rule["chainW"] = kind
@@ -484,9 +504,15 @@ func proof03Workload(args []string) int {
 					}
 				}
 				h := world.R.Height() + 1
+				if p.deferred != nil {
+					h++ // the held-back votes are the block in between
+				}
 				p.m.BeginBlock(h)
 				var items []p03Tx
 				n := []int{1, 1, 2, 4, 5, 6, 11, 12}[rng.Intn(8)]
+				if p.deferred != nil && n < 4 {
+					n = 4
+				}
 				for i := 0; i < n; i++ {
 					var it p03Tx
 					switch x := rng.Intn(10); {
@@ -520,11 +546,29 @@ func proof03Workload(args []string) int {
 					p.blocks = p.blocks[len(p.blocks)-12:]
 				}
 				var before map[string][]byte
-				if allInvalid {
+				if allInvalid && p.deferred == nil {
 					before = world.R.DumpState()
 				}
 				w.Step(fmt.Sprintf("block %d: %s", h, strings.Join(descs, " ;; ")))
-				res, err := world.Exec(txs...)
+				var res *harness.BlockResult
+				var err error
+				if p.deferred != nil {
+					d := harness.WireRoundTrip(p.deferred)
+					p.deferred = nil
+					world.TS += 1000
+					ts1 := world.TS
+					world.TS += 1000
+					var rs []*harness.BlockResult
+					rs, err = world.R.ExecPipelined([]harness.PipeBlock{{Txs: d, TS: ts1}, {Txs: harness.WireRoundTrip(txs), TS: world.TS}})
+					if err == nil && len(rs) == 2 {
+						res = rs[1]
+						w.Count("blocks_handed_over_together_with_the_deciding_rule_votes", 1)
+					} else if err == nil {
+						err = fmt.Errorf("pipelined pair returned %d results", len(rs))
+					}
+				} else {
+					res, err = world.Exec(txs...)
+				}
 				if err != nil {
 					p.viol("exec:error", err.Error())
 					break
@@ -611,6 +655,7 @@ func proof03Workload(args []string) int {
 				}
 			}
 			world.R.Close()
+			p.flush()
 			var sh []string
 			for k := range p.shape {
 				sh = append(sh, k)
